@@ -141,6 +141,11 @@ class Analyzer:
         if fn.args.kwarg:
             params.append(fn.args.kwarg.arg)
         env = {p: {p: 0} for p in params}
+        # a parameter annotated with an immutable scalar type cannot be written through: `n //= p` on an int rebinds a local
+        for a in fn.args.args + fn.args.kwonlyargs:
+            ann = a.annotation
+            if isinstance(ann, ast.Name) and ann.id in ("int", "float", "bool", "str", "complex"):
+                env[a.arg] = {}
         self._block(fn.body, env, S, cls, rel)
         return S
 
